@@ -458,6 +458,7 @@ class Filterbank(ABC):
                 {
                     "dm": 0,
                     "nchans": 1,
+                    "fch1": self.header.fch1 + ichan * self.header.foff,
                     "nsamples": tim_len,
                     "tstart": self.header.mjd_after_nsamps(start),
                 },
@@ -761,6 +762,7 @@ class Filterbank(ABC):
                         self.header.prep_outfile(
                             filename,
                             updates={
+                                "fch1": self.header.fch1 + chan * self.header.foff,
                                 "nchans": 1,
                                 "nbits": 32,
                                 "data_type": "time series",
@@ -769,7 +771,7 @@ class Filterbank(ABC):
                             nbits=32,
                         ),
                     )
-                    for filename in batch_files
+                    for filename, chan in zip(batch_files, batch_chans, strict=True)
                 ]
                 for nsamps_r, _, data in self.read_plan(
                     gulp=gulp,
